@@ -285,7 +285,7 @@ def run_case(case):
                 spec = gen.gen_project(rng)
                 if rng.random() < 0.5:
                     spec = add_hostility(rng, spec)
-                phases = gen.gen_history(rng, spec, nphase=rng.randint(0, 3))
+                phases = gen.gen_history(rng, spec, nphase=rng.randint(0, 3), breaks=0.2)
                 cfgs = [hostile_cfg(rng) for _ in range(len(phases) + 1)]
                 if rng.random() < 0.25:
                     outs = sorted(gen.declared_outputs(spec))
